@@ -575,6 +575,8 @@ structure Cfg where
   prepareSwapsEmpty : Bool := false
   /-- `getOrCreateValue` looks into the memory maps before the persisted bucket -/
   kvMemFirst : Bool := true
+  /-- memdb `GetOrCreateTimeSeriesIndex` takes `idb.lock` exclusively (`Lock`, lindb) around its second check + store -/
+  memdbExclusive : Bool := true
   /-- repair: the lock-free lookup adds a bucket to the LRU cache only while its snapshot is still current -/
   kvCacheAddGuarded : Bool := false
   /-- the schema lookup of the create path (`getSchemaLocked`) consults the LRU cache (lindb's does not) -/
@@ -718,11 +720,11 @@ is stopped before `bucketCache.Add`; the metadata flush persists `x`, installs t
 the cache; the lookup continues and caches the bucket of the OLD snapshot (answer: not found). Then, with
 no concurrency left, `GenMetricID(ns, x)`: the lock-free lookup misses through the stale bucket; lindb's
 createValue reads `s.snapshot` under the lock and finds `x`; a createValue that trusts the cache creates
-a second id. Returns the node and the answer for `x`. -/
+a second id — unless `bucketCache.Add` is guarded (fix 4de81d7): then no stale bucket is ever cached. Returns the node and the answer for `x`. -/
 def bucketCacheRace (c : Cfg) (nd : Node) (nb nsName x : Nat) : Node × GenOut :=
   let nd1 := nd.metaFlush
-  match c.kv with
-  | .recheckLockedCached =>
+  match c.kv, c.kvCacheAddGuarded with
+  | .recheckLockedCached, false =>
     match nd1.ns.lookup nb nsName with
     | none => (nd1, .stuck)
     | some nsID =>
@@ -731,7 +733,7 @@ def bucketCacheRace (c : Cfg) (nd : Node) (nb nsName x : Nat) : Node × GenOut :
       | none =>
         let i := nd1.seqMem.metric
         (afterAlloc c { nd1 with metric := nd1.metric.insert nsID x i, seqMem := { nd1.seqMem with metric := i + 1 } }, .id i)
-  | _ => nd1.genMetric c nb nsName x
+  | _, _ => nd1.genMetric c nb nsName x
 
 /-- witness schedule reader ‖ writer ‖ flush on a schema that is persisted and not in memory:
 a reader's `GetSchema(m)` has read the kv family and is stopped before `cache.Add`; a writer creates
@@ -834,6 +836,14 @@ def stepsBeforeCommit (sh : Shard) (j : Nat) : Nat :=
       else go (i + 1) fuel j
   go 0 5 j
 
+/-- the same with the fault in the schema family: ns and metric dictionaries flush normally, the kv
+commit of `metricSchemaStore.Flush` fails (the store returns the error before its locked tail: nothing is
+marked persisted, `immutable` stays), the tag value dictionary is not reached -/
+def metaFlushFailSchemaAt (nd : Node) : Nat :=
+  match nd.schema.frz with
+  | some (_, false) => 3
+  | _ => 5
+
 /-- an index flush whose series dictionary flush (the last step) fails at its kv family commit -/
 def indexFlushFailAt (nd : Node) (shard : Nat) : Nat := if (nd.shards shard).series.needFlush then 3 else 4
 
@@ -915,5 +925,78 @@ def fieldRace (v : SchemaVariant) (lim : Limits) (s : SchemaStore) (m fa fb : Na
   let la := lockedPtr v rb.1 m ga.2
   let ra := fieldLocked lim la.1 m fa la.2
   (ra.1, ra.2, rb.2)
+
+/-! ## Compaction of a dictionary family (index/v1/index_kv_merger.go)
+
+A kv family is a list of files, newest first; a file maps bucket → name → id. Readers take the first
+file that has the name (`TrieBucket.GetValue` over the tries appended by `Unmarshal`, one per file).
+The merger is called once per bucket with that bucket's blocks of all input files and writes their union. -/
+
+abbrev KvFiles := List Dict
+
+/-- what a reader of the family sees -/
+def readFiles : KvFiles → Dict
+  | [] => Dict.empty
+  | f :: rest => f.over (readFiles rest)
+
+/-- `indexKVMerger.Merge(bucketID, blocks)`: a fresh TrieBucket, every block unmarshalled into it -/
+def mergeBucket (blocks : List (Nat → Option Nat)) : Nat → Option Nat
+  | n => match blocks with
+    | [] => none
+    | b :: rest => match b n with
+      | some i => some i
+      | none => mergeBucket rest n
+
+/-- the compaction job: one output file whose block for bucket `b` is the merge of the inputs' blocks -/
+def compactFiles (fs : KvFiles) : KvFiles := [fun b => mergeBucket (fs.map (fun f => f b))]
+
+/-- a merger that keeps ONE working bucket for the whole job and never resets it (not lindb's): the block
+written for bucket `b` also holds everything merged for the buckets before it (`lower` = those buckets) -/
+def compactFilesLeaky (fs : KvFiles) (lower : Nat → List Nat) : KvFiles :=
+  [fun b => mergeBucket (((lower b).map (fun b' => fs.map (fun f => f b'))).flatten ++ fs.map (fun f => f b))]
+
+/-! ## tsdb/memdb: the memory index of a metric (index_database.go GetOrCreateTimeSeriesIndex)
+
+Double-checked creation: lock-free `Load`; on a miss take `idb.lock`, `Load` again, create and `Store`.
+`exclusive` = the lock is taken with `Lock()` (lindb) — the second check and the store are one atomic
+step; with `RLock()` they are two steps of possibly several callers. -/
+
+inductive MPc
+  | start
+  | locked      -- missed the fast path; about to run the section under idb.lock
+  | checked     -- (shared lock only) second Load missed, Store not yet done
+  | done (o : Nat)
+  deriving DecidableEq, Repr
+
+structure MemIdx where
+  /-- `timeSeriesIndexes[nameHash]`: the TimeSeriesIndex object of the metric, if stored -/
+  slot : Option Nat := none
+  nobj : Nat := 0
+  threads : List MPc := []
+  deriving DecidableEq, Repr
+
+def mstep (exclusive : Bool) (s : MemIdx) (i : Nat) : MemIdx :=
+  match s.threads[i]? with
+  | none => s
+  | some pc =>
+    match pc with
+    | .start =>
+      match s.slot with
+      | some o => { s with threads := s.threads.set i (.done o) }
+      | none => { s with threads := s.threads.set i .locked }
+    | .locked =>
+      match s.slot with
+      | some o => { s with threads := s.threads.set i (.done o) }
+      | none =>
+        if exclusive then { s with slot := some s.nobj, nobj := s.nobj + 1, threads := s.threads.set i (.done s.nobj) }
+        else { s with threads := s.threads.set i .checked }
+    | .checked => { s with slot := some s.nobj, nobj := s.nobj + 1, threads := s.threads.set i (.done s.nobj) }
+    | .done _ => s
+
+/-- a schedule: `none` = a new caller arrives, `some i` = caller i takes its next step -/
+def mrun (exclusive : Bool) (s : MemIdx) : List (Option Nat) → MemIdx
+  | [] => s
+  | none :: rest => mrun exclusive { s with threads := s.threads ++ [.start] } rest
+  | some i :: rest => mrun exclusive (mstep exclusive s i) rest
 
 end LinVerif.IdAssign
